@@ -7,7 +7,9 @@ cd /repo || exit 2
 if ! git diff --quiet; then echo "refusing: /repo has uncommitted changes" >&2; exit 2; fi
 if ! git apply --check "$PATCH" 2>/dev/null; then echo "patch does not apply: $PATCH" >&2; exit 2; fi
 git apply "$PATCH"
-trap 'git -C /repo checkout -- . >/dev/null 2>&1' EXIT
+# evidence of a run against a changed tree must not land in /verif/evidence
+export VERIF_EVIDENCE_DIR="$(mktemp -d /var/tmp/verif-try-ev.XXXXXX)"
+trap 'git -C /repo checkout -- . >/dev/null 2>&1; rm -rf "$VERIF_EVIDENCE_DIR"' EXIT
 cd /verif
 for P in "$@"; do
   OUT="$(mktemp /var/tmp/verif-try.XXXXXX)"
